@@ -203,7 +203,7 @@ func runC10(w *World, r *Report, tier string) {
 		T, fp := typeAssertSource(a0, route.Params[2])
 		okH := T != nil && w.typeStr(T) == "stanza.SMAnswer" && fp == "H"
 		okQ := strings.HasSuffix(fieldNames(fieldPath(args[2])), "Session.SMState.UnAckQueue")
-		okS := args[1] == ssa.Value(route.Params[1])
+		okS := origin(args[1]) == ssa.Value(route.Params[1])
 		r.Check(okH && okQ && okS, "R3", "xmpp.(*Router).route→SendMissingStz", w.ipos(sms[0]), fmt.Sprintf("the acknowledgement is not passed on faithfully (h is SMAnswer.H: %v, queue is the client's: %v, sender is the routed sender: %v)", okH, okQ, okS), "SendMissingStz(int(a.H), s, client.Session.SMState.UnAckQueue)")
 		// reached exactly when p is SMAnswer and s is *Client
 		guard := edgesAsserting(route, func(c ssa.Value, truth bool) bool {
